@@ -28,7 +28,7 @@ impl Property for C08 {
         "C08"
     }
     fn rule(&self) -> String {
-        "generated programs with 1..4 script inputs (single and multi-UTxO, redeemers on most), 0..3 mint/burn blocks with redeemers on single-policy blocks (distinct and shared policies, burns of minted classes), 0..3 withdrawals with redeemers on distinct reward accounts; transaction ids, output indices, policy ids and credentials are random so that every relative order occurs. Oracle: the map (purpose tag, index) -> data decoded from the witness set equals the map built from the source by ranking each guarded item in the ledger's sorted order of body inputs / mint policies / withdrawal accounts (one entry per UTxO of a multi-UTxO input). Non-trivial: >= 2 expected redeemers; distinct = distinct (source, world).".into()
+        "generated programs with 1..4 script inputs (single and multi-UTxO, redeemers on most), 0..3 mint/burn blocks with redeemers on single-policy blocks (distinct and shared policies, burns of minted classes), 0..3 withdrawals with redeemers on distinct reward accounts; transaction ids, output indices, policy ids and credentials are random so that every relative order occurs. Oracle: the map (purpose tag, index) -> data decoded from the witness set equals the map built from the source by ranking each guarded item in the ledger's sorted order of body inputs / mint policies / withdrawal accounts (one entry per UTxO of a multi-UTxO input); a tx whose blocks write two different redeemers for one policy (two mint blocks, or - one case in four - a mint and a burn of one policy) has no denotation and must be refused (`lost-redeemer:mint:two-redeemers-for-one-policy` when a transaction comes out). Non-trivial: >= 2 expected redeemers; distinct = distinct (source, world).".into()
     }
     fn assumptions(&self) -> Vec<String> {
         vec![
@@ -43,10 +43,10 @@ impl Property for C08 {
         }
     }
     fn required_features(&self, _tier: Tier) -> Vec<String> {
-        ["expected/spend", "expected/mint", "expected/reward", "feature/many-input", "feature/burn-redeemer", "multi-utxo-redeemer", "orders/spend-not-source-order", "unencodable-redeemer/checked"].iter().map(|s| s.to_string()).collect()
+        ["expected/spend", "expected/mint", "expected/reward", "feature/many-input", "feature/burn-redeemer", "multi-utxo-redeemer", "orders/spend-not-source-order", "unencodable-redeemer/checked", "redeemer-conflict/refused"].iter().map(|s| s.to_string()).collect()
     }
-    fn run_case(&self, ctx: &mut Ctx, phase: &str, _idx: u64, rng: &mut Rng) {
-        let cfg = Cfg { redeemer_focus: true, cardano_pct: 30, mint_pct: 70, datum_pct: 40, unencodable_redeemer: true, ..Default::default() };
+    fn run_case(&self, ctx: &mut Ctx, phase: &str, idx: u64, rng: &mut Rng) {
+        let cfg = Cfg { redeemer_focus: true, cardano_pct: 30, mint_pct: 70, datum_pct: 40, unencodable_redeemer: true, redeemer_clash: idx % 4 == 3, ..Default::default() };
         let g = build::generate(rng, &cfg);
         for t in &g.prog.tags {
             ctx.count(&format!("feature/{t}"));
@@ -59,8 +59,28 @@ impl Property for C08 {
             };
             for _ in 0..2 {
                 let w = build::world(&g, ti, rng, &cfg);
-                let Ok(exp) = Sem::new(&g.prog, &w).tx(txd) else {
+                let semr = Sem::new(&g.prog, &w).tx(txd);
+                let why = match &semr {
+                    Err(crate::gen::sem::Undef::Undefined(m)) => m.clone(),
+                    Ok(_) => String::new(),
+                };
+                let Ok(exp) = semr else {
                     ctx.count("world/undefined-denotation");
+                    // two blocks of one policy (two mints, a mint and a burn) with different redeemers: the ledger
+                    // has one slot per policy, so a transaction that comes out has lost a written redeemer
+                    if why == "two redeemers for one policy" {
+                        ctx.eval();
+                        ctx.count("redeemer-conflict/world");
+                        match back_assigned(&tir, &w, &PP::default()) {
+                            Ok(c) => ctx.violation(
+                                "lost-redeemer:mint:two-redeemers-for-one-policy",
+                                json!({"source": src, "tx": txd.name, "world": world_json(&w), "payload": hex::encode(&c.payload),
+                                       "note": "two mint / burn blocks of one policy carry different redeemers; the witness set has one slot per policy, so one of them is lost without an error"}),
+                            ),
+                            Err(e) if e.is_panic() => ctx.violation(format!("panic:{}", e.class()), json!({"source": src, "tx": txd.name, "world": world_json(&w), "panic": e.text()})),
+                            Err(_) => ctx.count("redeemer-conflict/refused"),
+                        }
+                    }
                     // a redeemer that has no Plutus-Data form: whatever else happens, no transaction may come
                     // out that spends the input without it
                     if g.prog.tags.iter().any(|t| t == "unencodable-redeemer") && txd.inputs.iter().any(|i| matches!(&i.redeemer, Some(crate::gen::ast::E::Param(_)))) {
